@@ -249,5 +249,33 @@ func FamilyEnum(thorough bool) []*Conv {
 			}
 		}
 	}
+	// two methods of one converter with different enum configuration for the same enum pair:
+	// the sibling (generated first: its name sorts first) must not influence the method under test
+	for fi, f := range []string{"struct", "function", "variable"} {
+		ec := enumCases()[0]
+		es := &EnumSpec{Unknown: "@panic"}
+		for _, m := range ec.Src.Members {
+			es.Map = append(es.Map, EnumArm{Src: m.Val, Tgt: ec.Tgt.val(m.Name)})
+		}
+		sib := "\t// goverter:enum no\n\tAPFXRaw(source PFXRawS) PFXRawT\n"
+		if f == "variable" {
+			sib = "\t// goverter:enum no\n\tAPFXRaw func(source PFXRawS) PFXRawT\n"
+		}
+		_ = fi
+		out = append(out, &Conv{
+			ID:           "enum/sibling_enum_no/" + f,
+			Family:       "enum",
+			Format:       f,
+			Params:       "source PFXS",
+			Results:      "PFXT",
+			Decls:        "type PFXS struct {\n\tE pfxsrc.Color\n\tN int\n}\ntype PFXT struct {\n\tE pfxtgt.Color\n\tN int\n}\ntype PFXRawS struct{ E pfxsrc.Color }\ntype PFXRawT struct{ E pfxtgt.Color }\n",
+			ConvLines:    []string{"enum:unknown @panic"},
+			ExtraMethods: sib,
+			Spec:         &Spec{Enums: map[string]*EnumSpec{"Color→Color": es}},
+			Aux:          map[string]string{"pfxsrc": ec.Src.source("pfxsrc", "Color"), "pfxtgt": ec.Tgt.source("pfxtgt", "Color")},
+			Imports:      []string{`pfxsrc "corpus/GRP/pfxsrc"`, `pfxtgt "corpus/GRP/pfxtgt"`},
+			Solo:         true,
+		})
+	}
 	return out
 }
